@@ -359,6 +359,45 @@ def tree_sibling_failure(sc, rng):
     return sc
 
 
+def tree_some_children_end(sc, rng):
+    """A parent with 3-5 children under one message type; several of them are ended from outside (stopped, halted, or
+    their own handler stops them) while the parent lives on and keeps broadcasting: every remaining child - also one
+    held by nobody but the parent - stays alive and keeps receiving each broadcast exactly once (C16, C05)."""
+    n = rng.randint(3, 5)
+    kids = [f"a{k+2}" for k in range(n)]
+    b = rng.choice(["register_bc", "register_bc2", "add_child"])
+    bc = {"register_bc": "broadcast_bc", "register_bc2": "broadcast_bc2", "add_child": "broadcast_unit"}[b]
+    enders = sorted(rng.sample(kids, rng.randint(2, n - 1)))
+    main = [{"op": "spawn", "a": "a1", "nh": "r_a1", "entry": "builder",
+             "cfg": {"cap": -1, "pscr": [Y] * rng.choice([0, 1]), "sscr": [[eff(b, 0, f"r_{x}") for x in kids]], "strat": "restart"}}]
+    for x in kids:
+        main.append({"op": "spawn", "a": x, "nh": f"r_{x}", "entry": "builder", "cfg": {"cap": rng.choice([-1, 2]), "pscr": [Y] * rng.choice([0, 1]), "sscr": [[Y] * rng.choice([0, 1])]}})
+        if x in enders:
+            main.append({"op": "clone", "h": f"r_{x}", "nh": f"e_{x}", "to": "c1"})
+        elif rng.random() < 0.5:
+            main.append({"op": "downgrade", "h": f"r_{x}", "nh": f"w_{x}", "to": "c1"})
+        main.append({"op": "give", "h": f"r_{x}", "to": "a1"})
+    main += [{"op": "clone", "h": "r_a1", "nh": "h_c1", "to": "c1"}, {"op": "clone", "h": "r_a1", "nh": "h_c2", "to": "c2"}, {"op": "drop", "h": "r_a1"}]
+    sc["clients"]["main"] = main
+    c1 = [{"op": "call", "h": "h_c1", "scr": [eff(bc)]}]
+    for x in enders:
+        how = rng.choice(["stop", "halt", "ctx_stop"])
+        c1.append({"op": "send", "h": f"e_{x}", "scr": [eff("ctx_stop")]} if how == "ctx_stop" else {"op": how, "h": f"e_{x}"})
+        if how != "halt" and rng.random() < 0.5:
+            c1.append({"op": "await", "h": f"e_{x}"})
+        c1 += [{"op": "yield"}] * rng.randint(0, 2)
+    for _ in range(rng.randint(2, 4)):
+        c1.append({"op": "call", "h": "h_c1", "scr": [eff(bc)] + [Y] * rng.choice([0, 1])})
+        c1 += [{"op": "yield"}] * rng.randint(0, 1)
+    for x in kids:
+        if any(o.get("nh") == f"w_{x}" for o in main):
+            c1 += [{"op": "upgrade", "h": f"w_{x}", "nh": f"u_{x}", "to": "c1"}, {"op": "stopped", "h": f"w_{x}"}]
+    c1.append({"op": "call", "h": "h_c1", "scr": [eff(bc)]})
+    sc["clients"]["c1"] = c1
+    sc["clients"]["c2"] = [{"op": rng.choice(["send", "call"]), "h": "h_c2", "scr": rng.choice([[eff(bc)], [], [Y]])} for _ in range(rng.randint(1, 3))]
+    return sc
+
+
 def fam_tree(seed, i):
     """C16: actor trees (depth <= 3, <= 6 nodes), children under different buckets, some also held from
     outside, parent terminated by every cause; broadcasts."""
@@ -374,8 +413,11 @@ def fam_tree(seed, i):
         parent[nodes[k]] = p
         depth[nodes[k]] = depth[p] + 1
     fault = rng.choice(["none", "none", "panic", "cancel", "start_err"])
-    if rng.random() < 0.2:
+    r0 = rng.random()
+    if r0 < 0.2:
         return tree_sibling_failure(sc, rng)
+    if r0 < 0.32:
+        return tree_some_children_end(sc, rng)
     if fault == "cancel":
         sc["cancels"] = 1
         sc["cancel_pct"] = rng.choice([4, 10])
